@@ -245,6 +245,17 @@ Theorem C01_da_replication_factor_halts_refuted :
 Proof. exact da_replication_factor_halts. Qed.
 Print Assumptions C01_da_replication_factor_halts_refuted.
 
+(* x/da: a slash_fraction that does not parse (a validation that forgets the field would accept
+   it): HandleSlashEpoch panics at the next multiple of slash_epoch.  [da_inv] demands that the
+   stored string parses into [0,1] (what Params.Validate checks on /repo HEAD; the harness asks the
+   real validation for every field, CField cases) *)
+Theorem C01_unparsable_slash_fraction_halts_refuted :
+  da_end true 2000 5000000000
+    {| di_state := Da.St ex_da_params_0 [] [] [] []; di_bank := {| Base.Bank.bal := fun _ _ => 0; Base.Bank.sup := fun _ => 0 |};
+       di_nact := 1; di_sft := HALF; di_sfr := None; di_cc := 0; di_slash_epoch := 1000 |} = Panic.
+Proof. exact da_unparsable_slash_fraction_halts. Qed.
+Print Assumptions C01_unparsable_slash_fraction_halts_refuted.
+
 (* x/shareclass: slash during unbonding -> EndBlocker error (open: known finding) *)
 Theorem C01_slashed_unbonding_halts_refuted : exists e, sc_end 12000000000 w_sc_in = Err e.
 Proof. exact sc_slashed_unbonding_halts. Qed.
